@@ -638,7 +638,47 @@ func mainReplay(args []string) int {
 		fmt.Fprintln(os.Stderr, err)
 		return 2
 	}
-	fmt.Println(string(data))
+	var rec struct {
+		Property   string         `json:"property"`
+		Obligation string         `json:"obligation"`
+		Clause     string         `json:"clause"`
+		Result     string         `json:"result"`
+		Reason     string         `json:"reason"`
+		Replay     *replayOutcome `json:"replay"`
+	}
+	if err := json.Unmarshal(data, &rec); err != nil {
+		fmt.Fprintln(os.Stderr, err)
+		return 2
+	}
+	fmt.Printf("property=%s obligation=%s result=%s\nclause: %s\nreason: %s\n", rec.Property, rec.Obligation, rec.Result, rec.Clause, rec.Reason)
+	if rec.Replay == nil || rec.Replay.TestSource == "" {
+		why := "the obligation is not a postcondition of a side-effect-free function"
+		if rec.Replay != nil && rec.Replay.Why != "" {
+			why = rec.Replay.Why
+		}
+		fmt.Printf("no failing input was found for this obligation (%s); the solver output is in the replay file\n", why)
+		return 0
+	}
+	fmt.Printf("call on the real code: %s\n", rec.Replay.Call)
+	lines, cmd, err := runReplayTest(rec.Replay.PkgDir, rec.Replay.TestSource)
+	fmt.Printf("ran: %s\n", cmd)
+	if err != nil {
+		fmt.Printf("replay did not run: %v\n", err)
+		return 2
+	}
+	for _, l := range lines {
+		fmt.Printf("observed: %s\n", l)
+	}
+	same := strings.Join(lines, "\n") == strings.Join(rec.Replay.Observed, "\n")
+	if rec.Replay.Reproduced && same {
+		fmt.Printf("REPRODUCED: the real code returns what was recorded, on which the clause is false\n")
+		return 1
+	}
+	if rec.Replay.Reproduced {
+		fmt.Printf("the working tree now behaves differently from the recorded run (recorded: %v)\n", rec.Replay.Observed)
+		return 0
+	}
+	fmt.Printf("not reproduced when recorded: %s\n", rec.Replay.Why)
 	return 0
 }
 
